@@ -42,6 +42,7 @@ class FuncReport:
 def _solver_check(pc, goal, timeout_ms):
     s = z3.Solver()
     s.set("timeout", timeout_ms)
+    s.set("max_memory", 6000)
     for f in pc:
         s.add(f)
     s.add(z3.Not(goal))
@@ -208,6 +209,8 @@ def model_value(m, v, depth=0, ctx=None):
                         out["cls"] = q
                 fields = {}
                 for (owner, fname), arr in old_heap.items():
+                    if owner == "__alive__":
+                        continue
                     if it.w.is_subclass(out["cls"], owner) or it.w.is_subclass(ty.cls, owner):
                         fty = it.field_ty(owner, fname)
                         fields[fname] = model_value(m, SV(fty, z3.Select(arr, t)), depth + 1, ctx)
@@ -376,10 +379,12 @@ class Verifier:
         try:
             try:
                 if fi.is_generator:
-                    raise Unsupported(f"generator function {fi.qname}")
+                    it.init_generator_frame(fi, fr, con)
                 it.exec_block(fi.node.body, fr)
+                if fi.is_generator:
+                    result = fr.env["_yielded"]
             except ReturnSig as r:
-                result = r.val
+                result = fr.env["_yielded"] if fi.is_generator else r.val
             except (BreakSig, ContinueSig):
                 raise Unsupported("break/continue outside loop")
             outcome = "return"
@@ -427,7 +432,7 @@ class Verifier:
             return  # no frame claimed
         for key, cur in it.heap.items():
             old = old_heap.get(key)
-            if old is None or cur.eq(old):
+            if key[0] == "__alive__" or old is None or cur.eq(old):
                 continue
             owner, f = key
             allowed = [o for (o, ow, ff) in mods if ow == owner and ff == f]
